@@ -413,7 +413,7 @@ fn structured_full_blocks(rep: &mut Report, part: usize, parts: usize) {
 }
 
 pub fn run(ctx: &Ctx) -> (Report, String) {
-    let seeds: Vec<i64> = if ctx.tier == Tier::Thorough { (1..=50).collect() } else { vec![1, 2, 3, 4, 5, 6] };
+    let seeds: Vec<i64> = if ctx.tier == Tier::Thorough { (1..=300).collect() } else { vec![1, 2, 3, 4, 5, 6] };
     let seeds: Vec<i64> = if ctx.scale_pct < 100 { seeds.into_iter().take(1).collect() } else { seeds };
     let mut jobs: Vec<(i64, i64, i64, bool)> = vec![];
     for s in &seeds {
@@ -423,8 +423,10 @@ pub fn run(ctx: &Ctx) -> (Report, String) {
             }
         }
     }
-    let n_rand = ctx.n(100_000, 2_000_000);
-    let reps = par_shards(jobs.len() + 8, ctx.threads, |i| {
+    let n_rand = ctx.n(100_000, 4_000_000);
+    // thorough: 56 more shards of random shortcut blocks and mixed sequences
+    let extra = if ctx.tier == Tier::Thorough && ctx.scale_pct == 100 { 56 } else { 0 };
+    let reps = par_shards(jobs.len() + 8 + extra, ctx.threads, |i| {
         let mut rep = Report::new();
         crate::mon::guarded(&mut rep, || J::obj().set("property", "C10").set("shard", i), |rep| {
             if i < jobs.len() {
@@ -434,7 +436,9 @@ pub fn run(ctx: &Ctx) -> (Report, String) {
                 let mut rng = Rng::new(ctx.seed ^ 0xC10, i as u64);
                 shape_blocks(rep, &mut rng, n_rand / 8);
                 mixed_sequences(rep, &mut rng, ctx.n(200, 4000));
-                structured_full_blocks(rep, i - jobs.len(), 8);
+                if i < jobs.len() + 8 {
+                    structured_full_blocks(rep, i - jobs.len(), 8);
+                }
             }
         });
         rep
@@ -443,8 +447,8 @@ pub fn run(ctx: &Ctx) -> (Report, String) {
     if ctx.is_main() {
         rep.require("annex_a_datasets", 6 * seeds.len() as u64);
         rep.require("shape_blocks:Dc:dc", 4096);
-        rep.require("shape_blocks:Horiz", n_rand / 2);
-        rep.require("shape_blocks:Vert", n_rand / 2);
+        rep.require("shape_blocks:Horiz", n_rand / 16 * (8 + extra as u64));
+        rep.require("shape_blocks:Vert", n_rand / 16 * (8 + extra as u64));
         rep.require("zero_blocks_ok", 15);
         rep.require("mixed_sequence_blocks", 100_000);
         rep.require("structured_full_blocks", 30_000);
